@@ -655,3 +655,61 @@ def implicit_relative_tolerance(ctx, funcs: Iterable[FunctionInfo]) -> List[Tupl
                     out.append((f, c, f"`{ast.unparse(c)[:70]}` names an absolute tolerance only: the default rtol=1e-5 still applies and exceeds it for "
                                       f"values of order 1, so the comparison is about 1e-5 wide whatever atol says"))
     return out
+
+
+def attribute_keyed_memo(ctx, funcs: Iterable[FunctionInfo]) -> List[Tuple[FunctionInfo, ast.AST, str]]:
+    """A memo table M (a local or a parameter) that is consulted under a key K (`M[K]`, `K in M`, `M.get(K)`) and filled with
+    `M[K] = V`, where K is built ONLY from attributes of one object x (`x.name`, `(type(x), x.name, x.path)`) and V is computed from x
+    itself: two objects that agree on those attributes but differ otherwise (copies with different contents under the same name)
+    share one entry.  Keys that contain `x` itself or `id(x)` are fine.  NOT armed generically (role-filtered use only)."""
+    out = []
+    for f in funcs:
+        rd = None
+        for st in walk_shallow(f.node):
+            if not isinstance(st, ast.Assign):
+                continue
+            tgt = next((t for t in st.targets if isinstance(t, ast.Subscript) and isinstance(t.value, ast.Name)), None)
+            if tgt is None:
+                continue
+            m, K = tgt.value.id, tgt.slice
+            kexpr = K
+            if isinstance(K, ast.Name):
+                if rd is None:
+                    rd = ctx.rd(f)
+                from engine.dataflow import assigned_value
+                if stmt_of(ctx.cfg(f), K) is None:
+                    continue
+                defs = rd.defs_reaching(K)
+                vals = [assigned_value(d, K.id) for d in defs if isinstance(d, ast.stmt)]
+                if len(vals) != 1 or vals[0] is None:
+                    continue
+                kexpr = vals[0]
+            parts = list(kexpr.elts) if isinstance(kexpr, ast.Tuple) else [kexpr]
+            objs = set()
+            only_attrs = True
+            for p_ in parts:
+                if isinstance(p_, ast.Attribute) and isinstance(p_.value, ast.Name):
+                    objs.add(p_.value.id)
+                elif isinstance(p_, ast.Call) and isinstance(p_.func, ast.Name) and p_.func.id == "type" and len(p_.args) == 1 \
+                        and isinstance(p_.args[0], ast.Name):
+                    objs.add(p_.args[0].id)
+                else:
+                    only_attrs = False
+            if not only_attrs or len(objs) != 1 or not any(isinstance(p_, ast.Attribute) for p_ in parts):
+                continue
+            x = next(iter(objs))
+            ktxt = ast.unparse(K)
+            consulted = any((isinstance(n, ast.Subscript) and isinstance(n.value, ast.Name) and n.value.id == m and isinstance(n.ctx, ast.Load)
+                             and ast.unparse(n.slice) == ktxt)
+                            or (isinstance(n, ast.Compare) and len(n.ops) == 1 and isinstance(n.ops[0], (ast.In, ast.NotIn))
+                                and isinstance(n.comparators[0], ast.Name) and n.comparators[0].id == m and ast.unparse(n.left) == ktxt)
+                            or (isinstance(n, ast.Call) and isinstance(n.func, ast.Attribute) and n.func.attr == "get" and isinstance(n.func.value, ast.Name)
+                                and n.func.value.id == m and n.args and ast.unparse(n.args[0]) == ktxt)
+                            for n in walk_shallow(f.node))
+            if not consulted:
+                continue
+            whole = [u for u in ast.walk(st.value) if isinstance(u, ast.Name) and u.id == x and not isinstance(parent(u), ast.Attribute)]
+            if whole:
+                out.append((f, st, f"the memo `{m}` is keyed by `{ast.unparse(kexpr)[:60]}` - attributes of `{x}` only - while `{norm(st)[:60]}` stores a value "
+                                   f"computed from `{x}` itself: another `{x}` with the same attributes but different contents gets the first one's entry"))
+    return out
